@@ -17,7 +17,8 @@ rm -f $W/repo/_demo.py
 if [ "$SKIP_TESTS" != "1" ]; then
   ( cd $W/repo && timeout 1200 /venv/bin/python -m pytest -q -p no:cacheprovider --timeout=900 2>&1 | tail -1 ) > $W/tests.txt
 else echo "skipped" > $W/tests.txt; fi
-cp -r /verif $W/verif
+VROOT=$(dirname $(dirname $(realpath $0)))
+cp -r $VROOT $W/verif
 ( cd $W/verif && PERMUTA_REPO=$W/repo timeout 1800 ./check $P --tier $TIER > $W/check.txt 2>&1 ); RC=$?
 echo "RESULT $SD prop=$P demo_with_patch_rc=$DW demo_without_rc=$DO tests='$(cat $W/tests.txt)' check_rc=$RC"
 grep -E "VIOLATION|failing input|correspondence broken|broken obligation" $W/check.txt | head -4
